@@ -32,7 +32,7 @@ MaxHops         == 64     \* program references beyond which an error is require
 Bind(env, x, v) == [env EXCEPT !.vars = [n \in (DOMAIN env.vars) \cup {x} |-> IF n = x THEN v ELSE env.vars[n]]]
 Deeper(env) == [env EXCEPT !.u = env.u + 1]
 (* the result of a context entered at nesting u: beyond the guaranteed nesting it may also be a depth failure *)
-AtDepth(env, r) == IF env.u > GuaranteedUnits THEN R(Weaken(r.o), r.log, FALSE) ELSE r
+AtDepth(env, r) == IF env.u > GuaranteedUnits THEN R(Weaken(r.o), Append(r.log, "#depth"), FALSE) ELSE r
 
 RECURSIVE Eval(_, _), EvalElems(_, _, _, _), EvalArgs(_, _, _, _), EvalPairs(_, _, _, _),
           Fold(_, _, _, _, _, _, _), Coalesce(_, _, _, _, _), Segs(_, _, _, _, _), Cases(_, _, _, _, _),
@@ -162,7 +162,7 @@ Eval(t, env) ==
            ELSE IF t.n \in DOMAIN env.vars THEN Pure(Ok(env.vars[t.n]))
            ELSE IF t.n \in DOMAIN env.progs
            THEN (IF env.h + 1 > MaxHops \/ (\E q \in env.path : q = <<t.n, env.vars>>)
-                 THEN R(Err("other"), <<>>, FALSE)
+                 THEN R(Err("other"), <<"#depth">>, FALSE)     \* running out of depth may abort every enclosing evaluation
                  ELSE LET e2 == [env EXCEPT !.u = env.u + 1, !.h = env.h + 1, !.path = env.path \cup {<<t.n, env.vars>>}]
                       IN AtDepth(e2, Eval(env.progs[t.n], e2)))
            ELSE Pure(Err("absent"))
@@ -186,7 +186,7 @@ Eval(t, env) ==
                                                         ELSE R(b.o, lg, a.lk /\ b.lk))
                             ELSE R(AnyOut, lg, FALSE))
                       ELSE \* a is uncertain: b may or may not have been evaluated
-                           (IF b.o.o = "ok" /\ Truthy(b.o.v) THEN R(Ok(VTrue), lg, FALSE) ELSE R(AnyOut, lg, FALSE))
+                           (IF b.o.o = "ok" /\ Truthy(b.o.v) /\ a.o.o = "opt" THEN R(Ok(VTrue), lg, FALSE) ELSE R(AnyOut, lg, FALSE))
            ELSE IF t.op = "&&" THEN
               LET a == Eval(t.l, env) IN
               IF a.o.o = "err" THEN a
@@ -202,7 +202,7 @@ Eval(t, env) ==
                     F(x, y) == CASE t.op \in {"+", "-", "*", "/", "%"} -> Arith(t.op, x, y)
                                  [] t.op = "in" -> In(x, y)
                                  [] OTHER -> RelOp(t.op, x, y)
-                IN R(Strict2(F, a.o, b.o), a.log \o b.log, a.lk /\ b.lk)
+                IN R(Strict2(F, a.o, b.o), a.log \o b.log, a.lk /\ b.lk /\ (a.log = <<>> \/ b.log = <<>>))
       [] t.k = "tern" ->
            LET c == Eval(t.c, env) IN
            IF c.o.o = "err" THEN c
@@ -225,7 +225,7 @@ Eval(t, env) ==
       [] t.k = "idx" ->
            LET a == Eval(t.e, env)
                b == Eval(t.i, env)
-           IN R(Strict2(Index, a.o, b.o), a.log \o b.log, a.lk /\ b.lk)
+           IN R(Strict2(Index, a.o, b.o), a.log \o b.log, a.lk /\ b.lk /\ (a.log = <<>> \/ b.log = <<>>))
       [] t.k = "fstr" -> Segs(t.segs, 1, env, <<>>, [log |-> <<>>, lk |-> TRUE])
       [] t.k = "match" ->
            LET s == Eval(t.e, env) IN
